@@ -40,6 +40,24 @@ META = {
         note="Monotonicity under removal of non-counting entries additionally relies on the C02 decision table, re-evaluated here.",
         ref="5 C06",
     ),
+    "C04": dict(
+        technique="reduction to statically decided facts (C03 step rule + effect/statelessness analysis + writer/loader pairing) with a paper induction over histories",
+        text="The history property is reduced to four facts, each decided on the current tree by static analysis: the per-step rule of C03; statelessness of the library (no module/class/function state written, no caches, no mutable defaults, no ambient reads reachable from verifiers); verifiers never write their arguments (the trusted root in particular); files are written as canonserialize(x) and read back by plain json.load. The induction over offer sequences on top of these facts is a written argument in DESIGN.md, not executed.",
+        note="The induction is a paper argument; equality of the reloaded JSON value is a json-library fact (assumed).",
+        ref="5 C04",
+    ),
+    "C08": dict(
+        technique="event/term matching on walked paths of writer, loader and in-place signers (effective open modes, json.load hooks, store targets); custom rules",
+        text="Structural half of persistence: the writer writes exactly canonserialize(metadata) once, in binary mode, to the named file, serializing before opening; the loader returns json.load(open(fname,'rb')) with default hooks, unmodified; every in-place signer stores only under ['signatures'] of the document and writes back the value it loaded to the path it loaded it from.",
+        note="Partial: json.load(canonserialize(x)) == x and the resulting invariance of verdicts are properties of CPython's json module given these facts; not decided here.",
+        ref="5 C08",
+    ),
+    "C12": dict(
+        technique="interprocedural effect analysis (parameter write sets, module-state writes, caching constructs, ambient reads) over walker events + static import closure + stdout taint; fixture-backed zero-count rules",
+        text="For all 29 validators/verifiers, the serializer, serialize_and_sign, wrap_as_signable and the key helpers the interprocedural write set on parameters is empty; no library function writes module/class/function state or mutates a module constant; no caching decorator or mutable default; no clock/environment/randomness/filesystem read is reachable from a verifier; module chains are inside the static import closure; printed text is ASCII-safe; wrapping deep-copies. Thread-safety and order-independence follow from the absence of shared mutable state.",
+        note="Aliasing through objects with adversarial dunder methods is excluded (A3). Each zero-count detector is shown to fire on /verif/fixtures/purity on every run.",
+        ref="5 C12",
+    ),
     "C13": dict(
         technique="exception-escape analysis (path-sensitive fact propagation + conditional summaries) over an ast-resolved program; call-graph acyclicity; custom rules",
         text="Static exception-escape analysis of all 24 public validators and 5 verifiers on every control-flow path: the escape set of each is within the documented families, named rejections carry the named classes, no while/recursion/mutated-iterable loops. Holds for every input because values are abstracted to guard facts; a new unguarded subscript, narrowed handler, assert-as-validation or foreign raise is reported with its call chain.",
